@@ -95,13 +95,16 @@ class Run:
         return self.add(rule, fn, desc, VIOLATION, why, loc, True, witness)
 
     def floor(self, rule, name, found, floor, loc=''):
-        """Fail closed when a rule matches fewer instances than were counted by hand on the pinned tree."""
+        """Instance-count guard: when a rule matches fewer instances than were counted by hand on the pinned tree, the
+        code it is anchored in has changed shape and part of the rule may hold vacuously.  That is a statement about
+        the checker's reach, not about the property, so it is reported as an *undecided* obligation (visible in the
+        output and the evidence) and never as a violation: a behaviour-preserving refactoring (a helper extracted, a
+        panic site removed) must not raise an alarm."""
         self.floors.append({'rule': rule, 'anchor': name, 'found': found, 'floor': floor})
         if found < floor:
-            self.violation(rule, '<crate>', f'anchor-lost[{name}]',
-                           f'rule matched {found} instance(s) of "{name}", fewer than the {floor} confirmed by hand: '
-                           f'the code the rule is anchored in has changed shape and the rule would pass vacuously',
-                           loc)
+            self.undecided(rule, '<crate>', f'anchor-weakened[{name}]',
+                           f'rule matched {found} instance(s) of "{name}", fewer than the {floor} counted on the pinned tree: '
+                           f'the code has changed shape; what the rule no longer sees is not decided', loc)
             return False
         return True
 
@@ -174,7 +177,8 @@ def finish(run, level='other', explanation='', assumptions=(), extra=None, exhau
     kn = [o for o in viol if id(o) in matched]
     stale = [k for k in known_active if k not in set(matched.values())]
 
-    vdir = os.path.join(VERIF, 'evidence', 'violations', pid)
+    evdir = os.environ.get('VERIF_EVIDENCE_DIR') or os.path.join(VERIF, 'evidence')
+    vdir = os.path.join(evdir, 'violations', pid)
     os.makedirs(vdir, exist_ok=True)
     for f in os.listdir(vdir):
         try:
@@ -248,11 +252,11 @@ def finish(run, level='other', explanation='', assumptions=(), extra=None, exhau
         'wall_s': round(time.time() - run.t0, 3),
         'violations': len(new),
     }
-    os.makedirs(os.path.join(VERIF, 'evidence'), exist_ok=True)
-    tmp = os.path.join(VERIF, 'evidence', f'{pid}.json.tmp.{os.getpid()}')
+    os.makedirs(evdir, exist_ok=True)
+    tmp = os.path.join(evdir, f'{pid}.json.tmp.{os.getpid()}')
     with open(tmp, 'w') as f:
         json.dump(ev, f, indent=1)
-    os.replace(tmp, os.path.join(VERIF, 'evidence', f'{pid}.json'))
+    os.replace(tmp, os.path.join(evdir, f'{pid}.json'))
     for l in lines:
         print(l)
     print(f"[{pid}] tier={run.tier} obligations={len(run.obs)} proved={by_verdict.get(PROVED, 0)} "
